@@ -237,7 +237,7 @@ fn ob_c04_mpsc_gate_sender() { gate_sender(); }
 #[kani::unwind(10)]
 fn ob_c04_mpsc_gate_async_sender() { gate_async_sender(); }
 
-// @obligation id=c04.mpsc.gate.Receiver props=C04,C01 kind=hist tier=thorough bound="bounded(1) built with one-slot stub chunks (no slot is touched), wake_all_senders/wake_all_receivers cut (no-op stubs); payloads any u8; closed Receiver: every receive form incl. recv_timeout, second close, drop"
+// @obligation id=c04.mpsc.gate.Receiver props=C04,C01 kind=hist tier=probe bound="bounded(1) built with one-slot stub chunks (no slot is touched), wake_all_senders/wake_all_receivers cut (no-op stubs); payloads any u8; closed Receiver: every receive form incl. recv_timeout, second close, drop"
 #[kani::proof]
 #[kani::stub(std::thread::current::current, crate::verif_k_stubs::stub_thread_current)]
 #[kani::stub(parking_lot::RawMutex::lock_slow, crate::verif_k_stubs::stub_lock_slow)]
@@ -321,7 +321,7 @@ fn ob_c04_mpsc_count_senders_drop() { count_senders(true); }
 #[kani::unwind(10)]
 fn ob_c04_mpsc_count_senders_close() { count_senders(false); }
 
-// @obligation id=c04.mpsc.closed_value.Sender props=C04,C01 kind=hist tier=thorough bound="bounded(1) built with one-slot stub chunks (no slot is touched), wake_all_senders/wake_all_receivers cut (no-op stubs); payloads any u8; receiver dropped, every send form of an open Sender"
+// @obligation id=c04.mpsc.closed_value.Sender props=C04,C01 kind=hist tier=probe bound="bounded(1) built with one-slot stub chunks (no slot is touched), wake_all_senders/wake_all_receivers cut (no-op stubs); payloads any u8; receiver dropped, every send form of an open Sender"
 #[kani::proof]
 #[kani::stub(std::thread::current::current, crate::verif_k_stubs::stub_thread_current)]
 #[kani::stub(parking_lot::RawMutex::lock_slow, crate::verif_k_stubs::stub_lock_slow)]
@@ -335,7 +335,7 @@ fn ob_c04_mpsc_count_senders_close() { count_senders(false); }
 #[kani::unwind(10)]
 fn ob_c04_mpsc_closed_value_sender() { closed_value(); }
 
-// @obligation id=c04.mpsc.closed_value.AsyncSender props=C04,C01 kind=hist tier=thorough bound="bounded(1) built with one-slot stub chunks (no slot is touched), wake_all_senders/wake_all_receivers cut (no-op stubs); payloads any u8; receiver dropped, every send form of an open AsyncSender"
+// @obligation id=c04.mpsc.closed_value.AsyncSender props=C04,C01 kind=hist tier=probe bound="bounded(1) built with one-slot stub chunks (no slot is touched), wake_all_senders/wake_all_receivers cut (no-op stubs); payloads any u8; receiver dropped, every send form of an open AsyncSender"
 #[kani::proof]
 #[kani::stub(std::thread::current::current, crate::verif_k_stubs::stub_thread_current)]
 #[kani::stub(parking_lot::RawMutex::lock_slow, crate::verif_k_stubs::stub_lock_slow)]
